@@ -6,6 +6,7 @@ import procoracle as po
 FAMILIES = ['process']
 BRIDGES = ['br_proc_', 'br_nonideal_']
 PROPS_V = 'Props/C01.v'
+EXTRA_TARGETS = ['Model/NumCheck.vo']
 BUDGET = {'quick': 150, 'thorough': 4000}
 ORACLE_RULE = ('random runs of the 4 process kinds x 3 permeate modes x built-in/synthetic mixtures x {NRTL, UNIQUAC} x area 1e-3..5 x feed '
                '0.1..100 kg x 1..30 steps x molar or mass initial composition x with/without temperature programme x membrane units; '
@@ -64,6 +65,14 @@ def oracle(rng, tier):
         ok, detail = check(pm, cfg, cd)
         yield {'kind': '%s:%s' % (cfg['kind'], cfg['mode']), 'case': po.describe(cfg), 'ok': ok, 'detail': detail,
                'nontrivial': cfg['n'] >= 2}
+
+
+def correspondence(tier, seed):
+    import corr_numeric
+    budget = {'process': 24}
+    if tier == 'thorough':
+        budget = {k: v * 12 for k, v in budget.items()}
+    return corr_numeric.run(seed, budget, nmax=30 if tier == 'quick' else 200, tag='C01')
 
 
 def replay(rep):
